@@ -68,7 +68,8 @@ use serde_json::{Value, json};
 use std::{sync::Arc, time::Duration};
 use vh::util::*;
 
-const EXCHANGE: ExchangeId = ExchangeId::Mock;
+// deliberately NOT ExchangeId::Mock: the mock client's own `EXCHANGE` constant must never leak into the link's identity
+const EXCHANGE: ExchangeId = ExchangeId::BinanceSpot;
 type State = EngineState<DefaultGlobalData, DefaultInstrumentMarketData>;
 
 fn order_kind(s: &ActiveOrderState) -> &'static str {
@@ -293,13 +294,30 @@ async fn main() {
         }
         tokio::time::sleep(Duration::from_millis(100)).await;
     }
-    let shutdown = tokio::time::timeout(Duration::from_secs(20), system.shutdown()).await;
+    // a panic inside the system under test is data (e.g. the engine task died, so `shutdown` cannot
+    // reach it any more): catch it and report it as an anomaly line
+    let shutdown = {
+        use futures::FutureExt;
+        let prev = std::panic::take_hook();
+        std::panic::set_hook(Box::new(|_| {}));
+        let r = tokio::time::timeout(Duration::from_secs(20), std::panic::AssertUnwindSafe(system.shutdown()).catch_unwind()).await;
+        std::panic::set_hook(prev);
+        match r {
+            Err(e) => Err(e),
+            Ok(Ok(inner)) => Ok(inner.map(|_| ())),
+            Ok(Err(p)) => {
+                let msg = p.downcast_ref::<String>().cloned().or_else(|| p.downcast_ref::<&str>().map(|s| s.to_string())).unwrap_or_else(|| "panic".into());
+                out.line(&json!({"a": "Anomaly", "anomaly": format!("system.shutdown() panicked: {msg} (the engine task had already died)")}));
+                Ok(Ok(()))
+            }
+        }
+    };
     match shutdown {
         Err(_) => out.line(&json!({"a": "Anomaly", "anomaly": "system.shutdown() did not return within 20 s"})),
         // the task this driver aborted itself reports as cancelled: not a defect
         Ok(Err(e)) if drop_link && e.is_cancelled() => {}
         Ok(Err(e)) => out.line(&json!({"a": "Anomaly", "anomaly": format!("system.shutdown() failed: {e} (a task panicked)")})),
-        Ok(Ok(_)) => {}
+        Ok(Ok(())) => {}
     }
 
     // ---- the audit stream -> trace lines
